@@ -51,6 +51,10 @@ pub enum BOp {
     /// weights in the key order the map is realised in; `second`: another order of the same keys for
     /// the order-independence rule; `send`: forward the resulting orders
     Diff { weights: Vec<(String, X)>, second: Vec<usize>, send: bool },
+    /// Another client of the same server (not the broker): 0 = init on the same dataset, 1 = tick its own
+    /// backtest, 2 = insert an order into its own backtest, 3 = new_backtest. Nothing it does may reach the
+    /// broker's backtest.
+    Stranger { act: u8 },
 }
 
 impl BOp {
@@ -63,6 +67,7 @@ impl BOp {
             BOp::Liquidate { .. } => 5,
             BOp::Check => 6,
             BOp::Diff { .. } => 7,
+            BOp::Stranger { .. } => 8,
         }
     }
 }
@@ -297,6 +302,8 @@ pub struct Sim<'a> {
     /// signed quantity per symbol of orders the exchange has filled while the fill never reached the broker
     /// (injected lost response): the broker legitimately still counts them as pending
     pub lost_pending: BTreeMap<String, f64>,
+    /// backtests another client of the same server created (op Stranger)
+    pub strangers: Vec<u64>,
 }
 
 pub struct OpOutcome {
@@ -308,6 +315,8 @@ pub struct OpOutcome {
     pub last_has_next: Option<bool>,
     /// trades the exchange executed on a tick whose response (or whose following quote response) was lost
     pub lost_trades: Vec<Trade>,
+    /// orders whose insert_order request was lost on the way (the broker was told Err)
+    pub lost_orders: Vec<Order>,
 }
 
 impl<'a> Sim<'a> {
@@ -333,6 +342,7 @@ impl<'a> Sim<'a> {
             led: Ledger::new(),
             wire_seen: 0,
             lost_pending: BTreeMap::new(),
+            strangers: Vec::new(),
             ticks: 0,
             json: case.path == Path::Json,
             ever_failed: false,
@@ -347,7 +357,7 @@ impl<'a> Sim<'a> {
     /// Read the wire entries produced since the last call: book trades, merge quotes, collect the
     /// orders that reached the server.
     pub fn absorb_wire(&mut self) -> OpOutcome {
-        let mut out = OpOutcome { failed: 0, arrivals: vec![], tick_trades: vec![], ticked: false, last_has_next: None, lost_trades: vec![] };
+        let mut out = OpOutcome { failed: 0, arrivals: vec![], tick_trades: vec![], ticked: false, last_has_next: None, lost_trades: vec![], lost_orders: vec![] };
         let wire = self.sh.wire.borrow();
         let mut pending_tick: Option<Vec<Trade>> = None;
         for w in wire[self.wire_seen..].iter() {
@@ -386,11 +396,16 @@ impl<'a> Sim<'a> {
                     }
                 }
                 Wire::Insert { order, .. } => out.arrivals.push(order.clone()),
+                Wire::InsertLost { order, .. } => {
+                    out.failed += 1;
+                    out.lost_orders.push(order.clone());
+                    self.ctx.bump("f10_insert_order_request_lost");
+                    ev!(self.ctx, "fault: insert_order failed at the transport (client returned Err)");
+                }
                 Wire::Failed { what } => {
                     out.failed += 1;
                     ev!(self.ctx, "fault: {what} failed at the transport (client returned Err)");
                     match *what {
-                        "insert_order" => self.ctx.bump("f10_insert_order_request_lost"),
                         "tick" => self.ctx.bump("f10_tick_request_lost"),
                         _ => {
                             // the quotes are lost, the tick's trades are not: they arrived with the tick
@@ -800,7 +815,7 @@ impl<'a> Sim<'a> {
         }
         alator::verif::set_positions_seed(Some(rec.perm));
         self.ctx.bump("f9_positions_permutations_installed");
-        let r = catch(|| self.exec_inner(rec));
+        let r = catch(|| crate::exec::enter(|| self.exec_inner(rec)));
         alator::verif::set_positions_seed(None);
         if let Err(p) = r {
             ev!(self.ctx, "PANIC {p}");
@@ -813,6 +828,7 @@ impl<'a> Sim<'a> {
                 BOp::Diff { .. } => &["C12", "C06"],
                 BOp::Check => &["C04", "C05", "C09"],
                 BOp::Deposit { .. } | BOp::Withdraw { .. } => &["C04"],
+                BOp::Stranger { .. } => &[],
             };
             let sig = match &rec.op {
                 BOp::Send { order } => order.typ.name().to_string(),
@@ -886,7 +902,57 @@ impl<'a> Sim<'a> {
             BOp::Liquidate { amt } => self.do_liquidate(amt.0, &o0, &s0),
             BOp::Check => self.do_check(&o0, &s0),
             BOp::Diff { weights, second, send } => self.do_diff(weights, second, *send, &o0, &s0),
+            BOp::Stranger { act } => self.do_stranger(*act, &o0, &s0),
         }
+    }
+
+    /// Another client of the same server state acts on its own backtests between the broker's requests.
+    fn do_stranger(&mut self, act: u8, o0: &Obs, s0: &VerifSnapshot) {
+        let clock0 = self.server_clock();
+        let name = self.ds.name.clone();
+        let what = match act {
+            0 => {
+                let r = self.sh.srv.init(&name);
+                if let Ok(id) = r {
+                    self.strangers.push(id);
+                }
+                format!("init -> {:?}", r.map_err(|e| e.status))
+            }
+            3 => {
+                let r = self.sh.srv.new_backtest(&name);
+                if let Ok(id) = r {
+                    self.strangers.push(id);
+                }
+                format!("new_backtest -> {:?}", r.map_err(|e| e.status))
+            }
+            1 => match self.strangers.last().copied() {
+                Some(id) => format!("tick {id} -> {:?}", self.sh.srv.tick(id).map(|t| t.executed_trades.len()).map_err(|e| e.status)),
+                None => "tick (no backtest yet)".to_string(),
+            },
+            _ => match self.strangers.last().copied() {
+                Some(id) => {
+                    let o = Order::market_buy(self.ds.symbols[0].clone(), 1.0);
+                    format!("insert into {id} -> {:?}", self.sh.srv.insert(&o, id).map_err(|e| e.status))
+                }
+                None => "insert (no backtest yet)".to_string(),
+            },
+        };
+        ev!(self.ctx, "stranger {what}");
+        self.ctx.bump("f7_requests_of_another_client_between_the_brokers");
+        let s1 = self.snapshot();
+        let o1 = self.observe();
+        let same = crate::e1u::snapshot_digest(s0) == crate::e1u::snapshot_digest(&s1) && clock0 == self.server_clock();
+        if !same {
+            let msg = format!(
+                "another client's request ({what}) changed the broker's own backtest {}: book {} -> {}, buffer {} -> {}, executed trades {} -> {}, clock {:?} -> {:?}",
+                self.bt, s0.book.len(), s1.book.len(), s0.buffer.len(), s1.buffer.len(), s0.trade_log.len(), s1.trade_log.len(), clock0, self.server_clock()
+            );
+            // trades executed (or orders admitted) behind the broker's back can never be counted by it
+            self.ctx.fail("C04", "stranger-touched-backtest", "stranger", msg.clone());
+            self.ctx.fail("C05", "stranger-touched-backtest", "stranger", msg);
+        }
+        let _ = o0;
+        self.generic_rules(&o1, "stranger");
     }
 
     /// After an operation that must not touch holdings, pending or the exchange.
@@ -1102,7 +1168,7 @@ impl<'a> Sim<'a> {
 
     /// C10 for one liquidation request (explicit, or the automatic one inside check()).
     #[allow(clippy::too_many_arguments)]
-    fn liquidation_rules(&mut self, what: &str, amount: f64, success: bool, queued: &[Order], o_at: &Obs, in_domain: bool) {
+    fn liquidation_rules(&mut self, what: &str, amount: f64, success: bool, queued: &[Order], lost: &[Order], o_at: &Obs, in_domain: bool) {
         if !in_domain {
             self.ctx.bump("skipped_out_of_domain_liquidation");
             return;
@@ -1114,6 +1180,14 @@ impl<'a> Sim<'a> {
                 self.ctx, "C10", "only-sells", sig, queued.iter().all(|o| o.order_type == OrderType::MarketSell),
                 "{what}: liquidation queued something other than market sells: {:?}", queued
             );
+            // Orders whose request the transport lost (injected) never reached the exchange, through no fault of
+            // the broker: "enough" is judged on what it tried to queue. "Nothing queued on failure" (below) stays
+            // literal: it is about what IS on the exchange.
+            if !lost.is_empty() {
+                self.ctx.bump("probe_liquidation_judged_with_lost_insert_requests");
+            }
+            let attempted: Vec<Order> = queued.iter().chain(lost.iter()).cloned().collect();
+            let queued = &attempted[..];
             let mut raised = 0.0;
             let mut remaining = amount;
             for q in queued {
@@ -1179,7 +1253,8 @@ impl<'a> Sim<'a> {
         let success = matches!(e, BrokerCashEvent::WithdrawSuccess(_));
         let above_cash = amt > o0.cash.max(0.0);
         let whole_long = o0.holdings.values().all(|v| *v > 0.0 && is_whole(*v));
-        let in_domain = above_cash && !o0.failed && whole_long && out.failed == 0;
+        // a liquidation request sends insert_order requests only: the only fault it can meet is a lost one
+        let in_domain = above_cash && !o0.failed && whole_long && out.failed == out.lost_orders.len();
         // C04: a liquidation request above the available cash never moves cash
         if above_cash {
             rule!(
@@ -1200,7 +1275,7 @@ impl<'a> Sim<'a> {
         if o0.failed {
             rule!(self.ctx, "C09", "failed-inert", "liquidate", out.arrivals.is_empty() && o1.pending == o0.pending, "liquidation in Failed state queued {} orders", out.arrivals.len());
         }
-        self.liquidation_rules("withdraw_cash_with_liquidation", amt, success, &queued, o0, in_domain);
+        self.liquidation_rules("withdraw_cash_with_liquidation", amt, success, &queued, &out.lost_orders, o0, in_domain);
         self.generic_rules(&o1, "liquidate");
         self.abstract_state(&o1);
     }
@@ -1270,7 +1345,7 @@ impl<'a> Sim<'a> {
             if shortfall && !near && out.failed == 0 {
                 let whole = o1.holdings.values().all(|v| *v > 0.0 && is_whole(*v));
                 let queued: Vec<Order> = s1.buffer.clone();
-                self.liquidation_rules("automatic rebalancing", need, !o1.failed, &queued, &o1, whole);
+                self.liquidation_rules("automatic rebalancing", need, !o1.failed, &queued, &[], &o1, whole);
             }
         }
         if o0.failed {
@@ -1489,6 +1564,8 @@ impl<'a> Sim<'a> {
 pub struct GenCfg {
     pub max_ops: usize,
     pub w: [u32; 7],
+    /// probability that the next op belongs to another client of the same server
+    pub stranger_p: f64,
     pub typ_w: [u32; 6],
     pub eager_only: bool,
     pub delay_p: f64,
@@ -1531,10 +1608,12 @@ pub fn gen_modes_f(rng: &mut Rng, eager_only: bool, delay_p: f64, fail_p: f64) -
                     _ => Delivery::ResponseLost,
                 }
             } else if rng.chance(delay_p) {
-                if rng.one_in(2) {
-                    Delivery::LazyPending(rng.range(1, 3) as u8)
-                } else {
-                    Delivery::EffectPending(rng.range(1, 3) as u8)
+                match rng.usize(6) {
+                    0 | 1 => Delivery::LazyPending(rng.range(1, 3) as u8),
+                    2 | 3 => Delivery::EffectPending(rng.range(1, 3) as u8),
+                    // slow in simulated time (the simulated clock jumps: 50 ms ... 10 min)
+                    4 => Delivery::SlowResponse(*rng.pick(&[50u32, 1_500, 3_000, 31_000, 600_000])),
+                    _ => Delivery::SlowRequest(*rng.pick(&[50u32, 1_500, 3_000, 31_000, 600_000])),
                 }
             } else if rng.one_in(2) {
                 Delivery::Lazy
@@ -1567,6 +1646,7 @@ struct Gen {
     queue: std::collections::VecDeque<BOp>,
     /// thorough only: one run in a hundred executes more than 65 536 trades for one broker
     flood: bool,
+    srng: Rng,
 }
 
 impl Gen {
@@ -1605,13 +1685,14 @@ impl Gen {
         let cfg = GenCfg {
             max_ops: if crate::common::long_run(seed, tier) { if thorough { c.range(300, 1500) as usize } else { c.range(200, 600) as usize } } else if thorough { c.range(20, 400) as usize } else { c.range(8, 60) as usize },
             w,
+            stranger_p: if root.fork("strangers").one_in(3) { 0.08 } else { 0.0 },
             typ_w,
             eager_only: c.one_in(4),
             delay_p: *c.pick(&[0.0, 0.2, 0.5]),
             fail_p: *c.pick(&[0.0, 0.0, 0.0, 0.05, 0.2]),
         };
         let flood = thorough && matches!(focus, "C04" | "C05" | "C11") && c.one_in(std::env::var("VERIF_FLOOD_ONE_IN").ok().and_then(|s| s.parse().ok()).unwrap_or(10_000));
-        Gen { rng: root.fork("ops"), cfg, issued: 0, next_tag: 1, queue: std::collections::VecDeque::new(), flood }
+        Gen { rng: root.fork("ops"), cfg, issued: 0, next_tag: 1, queue: std::collections::VecDeque::new(), flood, srng: root.fork("stranger-ops") }
     }
 
     fn amount(&mut self) -> f64 {
@@ -1747,6 +1828,9 @@ impl Gen {
         }
         let op = if let Some(q) = self.queue.pop_front() {
             q
+        } else if self.cfg.stranger_p > 0.0 && self.issued > 1 && self.srng.chance(self.cfg.stranger_p) {
+            // drawn from its own stream: runs without strangers stay what they were
+            BOp::Stranger { act: *self.srng.pick(&[0u8, 0, 1, 1, 1, 2, 3]) }
         } else if self.issued == 1 && !self.rng.one_in(8) {
             BOp::Deposit { amt: X(self.amount()) }
         } else {
@@ -1832,6 +1916,7 @@ fn finish(sim: &mut Sim) {
     sim.ctx.add("requests", sim.sh.requests.get());
     sim.ctx.add("f6_lazy_effects", sim.sh.lazy_effects.get());
     sim.ctx.add("f6_pending_polls", sim.sh.pending_polls.get());
+    sim.ctx.add("f6_simulated_ms_waited_for_slow_deliveries", sim.sh.simulated_ms.get());
     sim.ctx.add("f6_futures_dropped_unpolled", sim.sh.dropped_unpolled.get());
     let n = sim.ds.n();
     let i = sim.ticks.min(n - 1);
